@@ -28,14 +28,34 @@ NA = {
 "C28":"pure functions over small domains (ParseError helpers)",
 }
 PENDING = {
-"C04":"end-of-stream clause to be claimed via Engine B (in construction); not yet registered",
-"C17":"to be claimed via Engine B (in construction); not yet registered",
-"C27":"to be claimed via Engine B (in construction); not yet registered",
 }
 
 TB_A = "trusted: the LD_PRELOAD shim sees every in-world mutating libc call (audited against strace), tmpfs semantics, lalrpop itself as the *content* oracle (forced build in a clean world), the reference path/discovery model written from the property statement; sampling gives evidence, not proof"
 
+TB_B = "trusted: the corpus renderer/sampler (same GrammarSpec data drives both), the event log kept by user-code actions and token streams, determinism of an LR parse before a fault fires; grammars and inputs are a finite seeded corpus"
+
 CHECKS = [
+ dict(property_id="C17", quick_cmd="./check C17 quick", thorough_cmd="./check C17 thorough",
+      evidence_file="evidence/C17.json", replay_cmd_template="./check C17 replay {path}", engine="parsesim",
+      level_claimed=dict(category="fault_enumeration",
+        text="For every compiled corpus parser (19 grammar specs x table / recursive-ascent / LALR / with and without Location / built-in lexer = 88 parsers) and every sampled input, EVERY token pull of the fault-free history is turned into a stream error, EVERY executed fallible action (inlined ones and the start reduction included) is made to fail, pairs of both are sampled, and an unmatchable byte is spliced at every token boundary of built-in-lexer inputs; the faulted history must be the fault-free history up to the fault, the fault, and exactly that error - no further pull, no further action, also inside error recovery.",
+        design_ref="DESIGN.md section 4 (C17), section 3"),
+      level_note=TB_B,
+      technique="deterministic simulation with fault injection: exhaustive fault-position enumeration per input over token streams and fallible actions, prefix-refinement oracle against the fault-free history"),
+ dict(property_id="C04", quick_cmd="./check C04 quick", thorough_cmd="./check C04 thorough",
+      evidence_file="evidence/C04.json", replay_cmd_template="./check C04 replay {path}", engine="parsesim",
+      level_claimed=dict(category="fault_enumeration",
+        text="END-OF-STREAM CLAUSE ONLY: the token stream is cut after every k < n tokens of every sampled sentence of every recovery-free corpus parser; the result must be Ok or UnrecognizedEof at the end of token k (the location type's default for k = 0, incl. a location struct whose Default is not a plausible position), never UnrecognizedToken/ExtraToken, exactly k+1 pulls and none after the end, and all back ends of a grammar agree.",
+        design_ref="DESIGN.md section 4 (C04)"),
+      level_note=TB_B + "; the rest of C04 (where the first non-viable token of an arbitrary rejected input lies, `expected` lists) needs a viable-prefix oracle over generated inputs and is NOT claimed",
+      technique="deterministic simulation with fault injection: stream truncation at every position of sampled sentences"),
+ dict(property_id="C27", quick_cmd="./check C27 quick", thorough_cmd="./check C27 thorough",
+      evidence_file="evidence/C27.json", replay_cmd_template="./check C27 replay {path}", engine="parsesim",
+      level_claimed=dict(category="exploration",
+        text="A parser value shared through an Arc by 2-4 shuttle-scheduled threads (seeded random and PCT depth-3 schedulers; every token pull and action body is a scheduling point), with re-entrant parses from inside actions and sequential reuse afterwards; each result and event history must equal that of a fresh parser on that input alone. Compile-time Send+Sync assertions for every corpus parser; the thorough tier adds Miri's seeded pre-emptive scheduler over real std threads for data races and UB.",
+        design_ref="DESIGN.md section 4 (C27)"),
+      level_note=TB_B + "; shuttle cannot see instruction-level races (Miri covers a small sample of seeds); schedules are sampled, not enumerated",
+      technique="deterministic simulation: seeded schedule exploration (shuttle random + PCT) with replayable schedule files, Miri many-seeds in the thorough tier"),
  dict(property_id="C20", quick_cmd="./check C20 quick", thorough_cmd="./check C20 thorough",
       evidence_file="evidence/C20.json", replay_cmd_template="./check C20 replay {path}", engine="buildsim",
       level_claimed=dict(category="exploration",
@@ -72,6 +92,7 @@ m = {
  "hooks":{"guard":"none","enable":"no source hooks: seams are the libc symbol boundary (LD_PRELOAD shim sim/shim/simfs.so) and user code of generated parsers; checks rebuild /repo/lalrpop as a cargo path dependency",
           "baseline_off_cmd":"cd /repo && cargo test --workspace --no-fail-fast --offline","source_commits":[],"add_only":True},
  "engines":[
+   {"name":"parsesim","path":"sim/parsesim","serves_properties":["C04","C17","C27"],"kind_free_text":"parser stream/thread simulator: build.rs renders a GrammarSpec corpus and compiles it with the working tree's lalrpop; fault-injecting token iterators and fault-planned actions logging an event history; shuttle owns thread schedules"},
    {"name":"buildsim","path":"sim/buildsim","serves_properties":["C20","C21","C22","C23"],"kind_free_text":"build-world simulator: seeded op lists over a private tmpfs world, process-per-node, LD_PRELOAD fault shim (crash, torn/short/failing writes, failing calls, EINTR, seeded getrandom), reference model + forced-build oracle, minimiser and replay files"},
  ],
  "checks":CHECKS,
